@@ -24,6 +24,10 @@ class WeibullMinS(ScipyDistribution):
     scipy_dist_name = "weibull_min"
 
 
+class ExponWeibS(ScipyDistribution):     # two shape parameters (a, c): their order matters everywhere
+    scipy_dist_name = "exponweib"
+
+
 GRID = {
     "scale": [0.05, 0.7, 3.0, 20.0],
     "shape": [0.5, 1.0, 1.7, 4.0],
@@ -51,11 +55,12 @@ FAMILIES = {
     "GumbelR": (GumbelR, ("loc", "scale"), ("mu", "sigma")),
     "GammaS": (GammaS, ("a", "loc", "scale"), ("shape", "loc", "scale")),
     "WeibullMinS": (WeibullMinS, ("c", "loc", "scale"), ("shape", "loc", "scale")),
+    "ExponWeibS": (ExponWeibS, ("a", "c", "loc", "scale"), ("delta", "shape", "loc", "scale")),
 }
 SHORT = {"WeibullDistribution": "W3", "LogNormalDistribution": "LN", "NormalDistribution": "N",
          "LogNormalNormFitDistribution": "LNNF", "ExponentiatedWeibullDistribution": "EW",
          "GeneralizedGammaDistribution": "GG", "VonMisesDistribution": "VM", "GumbelR": "GUM", "GammaS": "GAM",
-         "WeibullMinS": "WMIN"}
+         "WeibullMinS": "WMIN", "ExponWeibS": "EWS"}
 
 
 def theta_grid(family, quick):
@@ -115,13 +120,14 @@ MID = {"WeibullDistribution": dict(alpha=1.5, beta=1.6, gamma=0.5),
        "VonMisesDistribution": dict(kappa=2.0, mu=0.3),
        "GumbelR": dict(loc=0.5, scale=0.6),
        "GammaS": dict(a=2.0, loc=0.5, scale=0.6),
-       "WeibullMinS": dict(c=1.6, loc=0.5, scale=1.5)}
+       "WeibullMinS": dict(c=1.6, loc=0.5, scale=1.5),
+       "ExponWeibS": dict(a=2.5, c=1.3, loc=0.5, scale=1.2)}
 # which parameters are dependent when the family is used as a conditional dimension (the rest is fixed)
 DEPENDENT = {"WeibullDistribution": ("alpha", "beta"), "LogNormalDistribution": ("mu", "sigma"),
              "NormalDistribution": ("mu", "sigma"), "LogNormalNormFitDistribution": ("mu_norm", "sigma_norm"),
              "ExponentiatedWeibullDistribution": ("alpha", "beta"), "GeneralizedGammaDistribution": ("c", "lambda_"),
              "VonMisesDistribution": ("kappa", "mu"), "GumbelR": ("loc", "scale"), "GammaS": ("a", "scale"),
-             "WeibullMinS": ("c", "scale")}
+             "WeibullMinS": ("c", "scale"), "ExponWeibS": ("a", "scale")}
 ASSIGN = {"A": ("inc", "dec"), "B": ("dec", "const"), "C": ("const", "inc")}
 
 
